@@ -33,14 +33,15 @@ What is proved here
   are disjoint and non-empty), which is why modelling `swap_remove` by `filter` and comparing
   selections as sorted lists loses nothing.
 
-Remaining obligations of C04 (NOT attempted here; they need the conversion engines and belong to
-the C03 work package, stated over `convert` of that package):
+The other obligations of C04 (linked, round 2) — they need the conversion engines / the editor state machine and
+cannot be stated in this file (C01's proofs import it):
 
-* `selection_shown : CompInv c → (∀ s ∈ c.selections, ValidSelection c s) → s ∈ c.selections →
-     ∀ p ∈ convert d c, textAt p s.start s.stop = s.text`
-* `break_not_spanned : c.gaps[i]? = some .brk → ∀ p ∈ convert d c, ∀ iv ∈ p, ¬ (iv.start < i ∧ i < iv.stop)`
-* the lift `choice_persists` to editor key histories (editor model; uses `selection_survives_run`,
-  `break_survives` and the `CompEditor` lemmas of `Props/C05.lean`).
+* `C03.selection_shown`, `C03.selection_not_split`, `C03.break_not_spanned` (`Props/C03.lean`): what every engine does
+  with the selections and breaks of a valid composition;
+* `Props/C04Editor.lean` (audited with this property): the lift to the EDITOR — `selection_survives_op` /
+  `selection_survives_key`, `choice_persists_along`, `choice_shown` / `choice_displayed` / `choice_shown_along`,
+  `choice_committed_by_autocommit`, `break_survives_op`, `break_persists_along`, `break_not_spanned_editor`, over
+  `opKinds` / `opEdits` / `opTouches` (which keys and calls count as "the user edits them").
 -/
 namespace Chewing.C04
 open Chewing
@@ -1241,5 +1242,8 @@ example : ∃ c', demo.apply (.pushSelection ⟨1, 2, true, [0x8A66]⟩) = .ok c
 /-- auto-commit of earlier text: `remove_front 2` cuts the choice, `remove_front 0` keeps it -/
 example : track demo [.removeFront 0, .setGap 2 .glue, .push (.chr 99)] ⟨0, 2, true, [0x6E2C, 0x8A66]⟩
     = some ⟨0, 2, true, [0x6E2C, 0x8A66]⟩ := by decide
+
+-- linked (round 2, linkF): the editor-level statements of C04 are in `Props/C04Editor.lean` (this file is imported by
+-- C01's proofs, so it cannot import C01's invariant or C03's engine theorems); `tools/audit_axioms.py C04` audits both.
 
 end Chewing.C04
